@@ -238,6 +238,62 @@ class C14(Prop):
                     res.violations.append('SynchronizedClock shows %r, interpreter.time is %r' % (sc.time, v))
         except Exception as e:       # pragma: no cover
             res.violations.append('SynchronizedClock unusable: %r' % (e,))
+        self.follow_interpreter(case, res)
+
+    FOLLOWED = None
+
+    def follow_interpreter(self, case, res):
+        """a SynchronizedClock following a real interpreter: whatever is done to that interpreter and its clock
+        between two steps (events queued with and without delay, the clock moved), it shows the time of the
+        last step (implementation only; the script is drawn from the seed of the case)"""
+        import random
+        from sismic.clock import SimulatedClock, SynchronizedClock
+        from sismic.interpreter import Interpreter
+        from sismic.model import Event
+        if C14.FOLLOWED is None:
+            from sismic.io import import_from_yaml
+            C14.FOLLOWED = import_from_yaml("""
+statechart:
+  name: followed
+  root state:
+    name: root
+    initial: a
+    states:
+      - name: a
+        transitions:
+          - {target: b, event: go, action: "send('tick', delay=2)"}
+      - name: b
+        transitions:
+          - {target: a, event: tick}
+          - {target: a, event: go}
+""")
+        rnd = random.Random(case.payload['seed'] ^ 0x5bd1)
+        clock = SimulatedClock()
+        it = Interpreter(copy.deepcopy(C14.FOLLOWED), clock=clock)
+        sync = SynchronizedClock(it)
+        last = 0
+        t = 0
+        for k in range(rnd.randint(4, 14)):
+            c = rnd.random()
+            if c < 0.3:
+                t += rnd.randint(1, 5)
+                clock.time = t
+                what = 'clock moved to %d' % t
+            elif c < 0.65:
+                d = rnd.choice([0, 0, 1, 3])
+                e = Event(rnd.choice(['go', 'tick', 'other']), **({'delay': d} if d or rnd.random() < 0.3 else {}))
+                it.queue(e)
+                what = 'queue(%r)' % (e,)
+            else:
+                it.execute_once()
+                # (a call that executes nothing still samples the clock: it is a step boundary too)
+                last = t
+                what = 'execute_once()'
+            if sync.time != last or SynchronizedClock(it).time != last:
+                res.violations.append('after %s (op %d of the followed interpreter) the SynchronizedClock shows %r / a fresh one %r; '
+                                      'the last step was at %r' % (what, k, sync.time, SynchronizedClock(it).time, last))
+                return
+        res.features.add('followed-interpreter')
 
     def shrink_candidates(self, case):
         p = case.payload
